@@ -603,7 +603,7 @@ Proof.
     destruct op; cbn [compile_items compile]; unfold isz; icode; rewrite ?H1, ?H2; reflexivity.
   - (* matches *)
     assert (H1 : Iok e1) by (apply IH; lia). assert (H2 : Iok e2) by (apply IH; lia). unfold Iok in H1, H2.
-    destruct re; cbn [compile_items compile]; icode; rewrite ?H1, ?H2; reflexivity.
+    cbn [compile_items compile]. destruct (re_const re e2); icode; rewrite ?H1, ?H2; reflexivity.
   - (* property *) cbn [compile_items compile]. icode. rewrite (IH e); [reflexivity|lia].
   - (* index *) cbn [compile_items compile]. icode. rewrite (IH e1), (IH e2); [reflexivity|lia|lia].
   - (* slice *)
@@ -989,7 +989,7 @@ Proof.
   - (* matches *)
     apply andb_prop in Hh. destruct Hh as [Hh1 Hh2].
     assert (H1 : Hok e1) by (apply IH; auto; lia). unfold Hok in H1.
-    destruct re; cbn [compile_items]; okc; fold (all_ok (citems e1)); rewrite H1; [reflexivity|].
+    cbn [compile_items]. revert Hh2. destruct (re_const re e2); intros Hh2; okc; fold (all_ok (citems e1)); rewrite H1; [reflexivity|].
     fold (all_ok (citems e2)). rewrite (IH e2) by (auto; lia). reflexivity.
   - (* property *) cbn [compile_items]. okc. fold (all_ok (citems e)). rewrite (IH e) by (auto; lia). destruct nilsafe; reflexivity.
   - (* index *)
